@@ -1041,6 +1041,13 @@ async fn exec_record(l: &mut Live, act: &Value, certs: &Certs, rng: &mut Rng) ->
         let (d, alive) = l.target().drain_app();
         return Ok(Outcome { built, settled: Settled { delivered: d, state: st, alive, how: "release" }, pre_state, is_release });
     }
+    // repetition: the same class `rep` times back to back (each copy built afresh), probed once at the end
+    let reps = act["rep"].as_u64().unwrap_or(1).max(1);
+    for _ in 1..reps {
+        let again = build(l, act, certs, rng).map_err(|e| format!("BUILD cannot build {act}: {e}"))?;
+        inject(l, &again.datagram, src).await?;
+        l.injected += 1;
+    }
     inject(l, &built.datagram, src).await?;
     if phase == Phase::NoKeys && target_is_client {
         let st = release_and_wait(l).await?;
@@ -1189,7 +1196,13 @@ async fn run_inject(edges_path: &str, out_path: &str) {
     // skipped at once (a tool error, never a verdict)
     let mut broken_starts: HashMap<(String, String), String> = HashMap::new();
     let mut observed: HashMap<String, u64> = HashMap::new();
-    for (_, idxs) in groups {
+    let progress = std::env::var("VERIF_PROGRESS").is_ok();
+    let t_start = Instant::now();
+    for (gi, (_, idxs)) in groups.into_iter().enumerate() {
+        if progress {
+            eprintln!("[{:7.1}s] group {} ({} edges) role={} pre={}", t_start.elapsed().as_secs_f64(), gi, idxs.len(),
+                edges[idxs[0]]["role"], edges[idxs[0]]["pre"].as_array().map(|a| a.iter().map(|s| format!("{}:{}>{}", s["rec"]["ct"].as_str().unwrap_or(""), s["rec"]["cls"].as_str().unwrap_or(""), s["to"].as_str().unwrap_or(""))).collect::<Vec<_>>().join(" ")).unwrap_or_default());
+        }
         let first = &edges[idxs[0]];
         let role = first["role"].as_str().unwrap().to_string();
         let target_is_client = role == "client";
@@ -1336,6 +1349,19 @@ async fn run_inject(edges_path: &str, out_path: &str) {
 
 // ------------------------------------------------------------------------------------------------ egress command
 
+/// Datagrams the kernel dropped on the UDP socket bound to `port` (receive buffer overflow), from /proc/net/udp.
+fn udp_drops(port: u16) -> Option<u64> {
+    let txt = std::fs::read_to_string("/proc/net/udp").ok()?;
+    let want = format!(":{port:04X}");
+    for line in txt.lines().skip(1) {
+        let f: Vec<&str> = line.split_whitespace().collect();
+        if f.len() >= 13 && f[1].ends_with(&want) {
+            return f[12].parse().ok();
+        }
+    }
+    None
+}
+
 fn payload_for(task: usize, msg: usize, n: usize) -> Vec<u8> {
     // self-describing: every 8-byte unit names (task, msg, unit index)
     let mut v = Vec::with_capacity(n + 8);
@@ -1426,11 +1452,22 @@ async fn run_egress(scen_path: &str, out_path: &str, trace_path: &str) {
                 start.wait().await;
                 for (mi, n) in list.into_iter().enumerate() {
                     let recs = n.div_ceil(MAX_APP_DATA_RECORD_SIZE) as u64;
-                    // reserve, then wait until the reservation fits the window
+                    // reserve, then wait until the reservation fits the window; if the capture makes no progress
+                    // for a while (the sender emitted fewer datagrams than planned) go on anyway - this only
+                    // paces the senders, no verdict depends on it
                     let mine = sent.fetch_add(recs, Ordering::SeqCst);
+                    let mut last = (rx_tap.total.load(Ordering::SeqCst), Instant::now());
                     loop {
-                        let got = rx_tap.total.load(Ordering::SeqCst) - base_total;
+                        let now_total = rx_tap.total.load(Ordering::SeqCst);
+                        let got = now_total - base_total;
                         if mine + recs <= got + WINDOW.max(recs) {
+                            break;
+                        }
+                        if now_total != last.0 {
+                            last = (now_total, Instant::now());
+                        } else if last.1.elapsed() > Duration::from_millis(50) {
+                            // resynchronise the reservation counter with what really came out
+                            sent.store(got, Ordering::SeqCst);
                             break;
                         }
                         tokio::task::yield_now().await;
@@ -1450,7 +1487,25 @@ async fn run_egress(scen_path: &str, out_path: &str, trace_path: &str) {
         }
         let taps = [rx_tap.clone()];
         let tr: Vec<&Arc<Tap>> = taps.iter().collect();
-        let all = wait_until(&tr, Duration::from_secs(10), || rx_tap.total.load(Ordering::SeqCst) - base_total >= expect_records).await;
+        // everything planned has arrived, or the wire has been quiet for a while
+        let mut quiet = (rx_tap.total.load(Ordering::SeqCst), Instant::now());
+        wait_until(&tr, Duration::from_secs(10), || {
+            let t = rx_tap.total.load(Ordering::SeqCst);
+            if t - base_total >= expect_records {
+                return true;
+            }
+            if t != quiet.0 {
+                quiet = (t, Instant::now());
+            }
+            quiet.1.elapsed() > Duration::from_millis(400)
+        })
+        .await;
+        // the capture is complete unless the kernel dropped datagrams on the receiving socket
+        let drops = udp_drops(l.tgt().addr.port());
+        let all = match drops {
+            Some(d) => d == 0,
+            None => rx_tap.total.load(Ordering::SeqCst) - base_total >= expect_records,
+        };
         let mut closed_state = "";
         if close {
             let before = rx_tap.total.load(Ordering::SeqCst);
@@ -1588,7 +1643,7 @@ async fn run_egress(scen_path: &str, out_path: &str, trace_path: &str) {
         }
         let errs = std::mem::take(&mut *send_errors.lock());
         out.push(&json!({"type": "scenario", "scenario": si, "case": sc, "records": n_here, "expected_app_records": expect_records,
-            "all_captured": all, "incomplete_msgs": incomplete, "send_errors": errs, "panics": panics, "receiver_after_close": closed_state}));
+            "all_captured": all, "kernel_drops": drops, "incomplete_msgs": incomplete, "send_errors": errs, "panics": panics, "receiver_after_close": closed_state}));
         send_errors = Arc::new(Mutex::new(Vec::new()));
         let _ = &mut l;
     }
